@@ -63,6 +63,17 @@ type Script struct {
 	Duplex  bool `json:"duplex,omitempty"`
 	MsgSize int  `json:"msg_size,omitempty"`
 
+	// ReqSize gives size classes to request messages by position ("" normal,
+	// "empty": encodes to zero bytes, "tiny": two bytes); RepEmpty / RepTiny
+	// list the replies (by index) that are empty / tiny. MixFlags (gRPC-web
+	// with gzip): every second non-empty message is sent with flag 0
+	// (uncompressed), which is legal on a compressed stream; empty messages
+	// always are, as grpc-go sends them.
+	ReqSize  []string `json:"req_size,omitempty"`
+	RepEmpty []int    `json:"rep_empty,omitempty"`
+	RepTiny  []int    `json:"rep_tiny,omitempty"`
+	MixFlags bool     `json:"mix_flags,omitempty"`
+
 	// Hop: class of HTTP/1 connection header fields added to the request
 	// (HTTP front); InProc: the request is handed to the Mux in-process.
 	Hop    string `json:"hop,omitempty"`
@@ -81,6 +92,7 @@ func (s *Script) String() string {
 	if s.Duplex {
 		meta += fmt.Sprintf(" duplex size=%d", s.MsgSize)
 	}
+	meta += s.sizes()
 	if s.Hop != "" {
 		meta += " hop=" + s.Hop
 	}
@@ -108,11 +120,89 @@ type planWire struct {
 	Msg    string   `json:"msg"`
 	Det    int      `json:"det"`
 	BigRep int      `json:"big"`
+	Empty  []int    `json:"er,omitempty"`
+	Tiny   []int    `json:"tr,omitempty"`
 }
 
 func (s *Script) planJSON() string {
-	b, _ := json.Marshal(planWire{Steps: s.Server, Code: s.Final.Code, Msg: s.Final.Msg, Det: s.Final.Det, BigRep: s.BigRep})
+	b, _ := json.Marshal(planWire{Steps: s.Server, Code: s.Final.Code, Msg: s.Final.Msg, Det: s.Final.Det, BigRep: s.BigRep, Empty: s.RepEmpty, Tiny: s.RepTiny})
 	return string(b)
+}
+
+// sizes renders the size classes for String().
+func (s *Script) sizes() string {
+	var parts []string
+	for i, c := range s.ReqSize {
+		if c != "" {
+			parts = append(parts, fmt.Sprintf("req%d=%s", i, c))
+		}
+	}
+	for _, i := range s.RepEmpty {
+		parts = append(parts, fmt.Sprintf("rep%d=empty", i))
+	}
+	for _, i := range s.RepTiny {
+		parts = append(parts, fmt.Sprintf("rep%d=tiny", i))
+	}
+	if s.MixFlags {
+		parts = append(parts, "mixed-flags")
+	}
+	if len(parts) == 0 {
+		return ""
+	}
+	return " sizes[" + strings.Join(parts, ",") + "]"
+}
+
+// nReplies is the number of replies the plan sends on its own ("s" steps, or
+// the single reply of unary / client-streaming methods).
+func (s *Script) nReplies() int {
+	if s.Shape == "unary" || s.Shape == "cs" {
+		return 1
+	}
+	n := 0
+	for _, x := range s.Server {
+		if x == "s" {
+			n++
+		}
+	}
+	return n
+}
+
+// drawSizes gives empty / tiny classes to some positions. The first request
+// message can only be one when the plan travels in the metadata.
+func drawSizes(rng *rand.Rand, s *Script) {
+	if s.Duplex || s.HTTPGet {
+		return
+	}
+	pickc := func() string {
+		if rng.Intn(3) == 0 {
+			return "tiny"
+		}
+		return "empty"
+	}
+	s.ReqSize = make([]string, s.NMsg)
+	any := false
+	for i := range s.ReqSize {
+		if i == 0 && !s.MetaPlan {
+			continue
+		}
+		if rng.Intn(2) == 0 {
+			s.ReqSize[i], any = pickc(), true
+		}
+	}
+	if !any {
+		s.ReqSize = nil
+	}
+	for k := 0; k < s.nReplies(); k++ {
+		switch rng.Intn(4) {
+		case 0, 1:
+			s.RepEmpty = append(s.RepEmpty, k)
+		case 2:
+			s.RepTiny = append(s.RepTiny, k)
+		}
+	}
+	if s.Front == "web" && s.Gzip {
+		s.MixFlags = rng.Intn(2) == 0
+	}
 }
 
 func cat3(a, b, c []structure) []structure {
@@ -428,6 +518,61 @@ func wsStructures() []structure {
 	return out
 }
 
+// sizeScripts crosses empty / tiny messages at every position (only, first,
+// middle, last) in both directions with compression, on every front with a
+// body: plan-in-metadata unary and server-streaming calls (so that the only
+// request message can be empty), client-streaming and ping-pong bidi calls
+// of three messages.
+func sizeScripts(rng *rand.Rand, fronts []string) []*Script {
+	var out []*Script
+	mk := func(front, shape, fam string, n int, server, client []string, meta bool, req []string, re, rt []int, gz bool) {
+		s := &Script{Front: front, Shape: shape, NMsg: n, Server: server, Client: client, Fam: fam, BigReq: -1, BigRep: -1, MetaPlan: meta,
+			ReqSize: req, RepEmpty: re, RepTiny: rt, Gzip: gz}
+		s.MDClass = mdClasses[rng.Intn(len(mdClasses))]
+		s.MD = drawMD(rng, s.MDClass)
+		if front == "web" && gz {
+			s.MixFlags = rng.Intn(2) == 0
+		}
+		if meta {
+			s.Pause = "none"
+		}
+		out = append(out, s)
+	}
+	for _, front := range fronts {
+		for _, gz := range []bool{true, false} {
+			for _, c := range []string{"empty", "tiny"} {
+				idx := func(k ...int) ([]int, []int) {
+					if c == "empty" {
+						return k, nil
+					}
+					return nil, k
+				}
+				// only message / only reply
+				re, rt := idx(0)
+				mk(front, "unary", "sizes:unary", 1, []string{}, nil, true, []string{c}, re, rt, gz)
+				mk(front, "unary", "sizes:unary", 1, []string{}, nil, true, []string{c}, nil, nil, gz)
+				// server streaming: request of that size, replies first / middle / last
+				for _, k := range []int{0, 1, 2} {
+					re, rt := idx(k)
+					mk(front, "ss", "sizes:ss", 1, []string{"r", "s", "s", "s"}, []string{"s"}, true, []string{c}, re, rt, gz)
+				}
+				// client streaming and ping-pong bidi: first / middle / last / all
+				for _, pos := range [][]int{{0}, {1}, {2}, {0, 1, 2}} {
+					req := make([]string, 3)
+					for _, i := range pos {
+						req[i] = c
+					}
+					re, rt := idx(0)
+					mk(front, "cs", "sizes:cs", 3, []string{"r", "r", "r", "e"}, []string{"s", "s", "s", "c"}, true, req, re, rt, gz)
+					// echo of an empty message is an empty reply
+					mk(front, "bidi", "sizes:pingpong", 3, []string{"p"}, []string{"s", "s", "s", "c"}, true, req, nil, nil, gz)
+				}
+			}
+		}
+	}
+	return out
+}
+
 // pipelined enumerates the full-duplex scripts: a bidi echo in which the
 // client keeps sending (its own goroutine) while the replies flow back, with
 // and without compression, so that both directions of the proxy work at the
@@ -569,6 +714,9 @@ func materialise(rng *rand.Rand, st structure) *Script {
 	if s.Front == "ws" {
 		s.BigReq = -1 // one JSON text frame per message; keep frames small
 	}
+	if rng.Intn(3) == 0 {
+		drawSizes(rng, &s)
+	}
 	return &s
 }
 
@@ -604,6 +752,9 @@ func Cases(rng *rand.Rand, thorough bool) []*Script {
 		// think-time scripts: every structure once
 		for _, st := range metas {
 			list = append(list, materialise(rng, st))
+		}
+		for k := 0; k < 3; k++ {
+			list = append(list, sizeScripts(rng, []string{"grpc", "web", "http"})...)
 		}
 		// WebSocket scripts: every structure six times; connection-header
 		// scripts: three draws
@@ -655,7 +806,7 @@ func Cases(rng *rand.Rand, thorough bool) []*Script {
 		}
 		byFam[k] = append(byFam[k], st)
 	}
-	const budget = 480
+	const budget = 420
 	for _, k := range fams {
 		g := byFam[k]
 		for i := 0; i < 4; i++ {
@@ -672,17 +823,22 @@ func Cases(rng *rand.Rand, thorough bool) []*Script {
 	for len(list) < budget {
 		list = append(list, materialise(rng, strs[rng.Intn(len(strs))]))
 	}
+	// empty / tiny messages at every position x compression x front
+	list = append(list, sizeScripts(rng, []string{"grpc", "web", "http"})...)
 	// connection-header scripts (every class x shape x real / in-process) and
-	// half of the WebSocket structures
+	// a third of the WebSocket structures
 	list = append(list, hopScripts(rng)...)
 	for _, st := range wsStructures() {
-		if rng.Intn(2) == 0 {
+		if rng.Intn(3) == 0 {
 			list = append(list, materialise(rng, st))
 		}
 	}
 	// full-duplex scripts: every structure of the quick variant once (each
 	// front, with and without gzip, OK and failing end)
 	for _, st := range pipes {
+		if st.Front != "grpc" && (!st.Gzip || (st.Front == "http" && st.fail)) {
+			continue // quick: the raw fronts only with compression
+		}
 		list = append(list, materialise(rng, st))
 	}
 	// think-time scripts: two per (front, shape, family, pause point), with a
@@ -703,6 +859,9 @@ func Cases(rng *rand.Rand, thorough bool) []*Script {
 			if st.fail {
 				fails = append(fails, st)
 			}
+		}
+		if !strings.HasPrefix(k, "grpc/") && rng.Intn(2) == 0 {
+			continue // quick: half of the groups on the other fronts
 		}
 		list = append(list, materialise(rng, fails[rng.Intn(len(fails))]))
 		if strings.HasPrefix(k, "grpc/") {
